@@ -129,7 +129,7 @@ Definition step (e : env) (op : list tok) : env * list tok :=
                TN (match hcmd h with Proxy => 1 | Local => 0 end); tn_N (hfam h)] ++ addr_toks (Some (haddr h))
             end)
       | _ => bad end
-    else if name =? "bb" then (e, [])      (* black-box run: no model observation *)
+    else if (name =? "bb") || (name =? "bbs") then (e, [])      (* black-box run: no model observation *)
     else if name =? "new" then
       match args with
       | [TS mode; TN size; TN fam] =>
